@@ -13,6 +13,11 @@ from pyndl import activation, ndl
 def _da(t):
     outs, cues = t['outcomes'], t['cues']
     vals = np.array([fl(v) for v in t['vals']], dtype=np.float64).reshape((len(outs), len(cues)))
+    if t.get('dtype', 'float64') != 'float64':
+        # the generator only draws values this dtype represents exactly
+        conv = vals.astype(t['dtype'])
+        assert (conv.astype(np.float64) == vals).all()
+        vals = conv
     layout = t.get('layout', 'c')
     if layout == 'f':
         vals = np.asfortranarray(vals)
@@ -21,7 +26,7 @@ def _da(t):
         return xr.DataArray(np.ascontiguousarray(vals.T), [('cues', cues), ('outcomes', outs)]).T
     elif layout == 'slice':
         # a selection of a larger matrix: padding rows/columns around the real cells, selected away again
-        big = np.full((len(outs) + 2, len(cues) + 3), 7.25)
+        big = np.full((len(outs) + 2, len(cues) + 3), 7.25, dtype=vals.dtype)
         big[1:-1, 2:-1] = vals
         da = xr.DataArray(big, [('outcomes', ['PAD0'] + outs + ['PAD1']), ('cues', ['P0', 'P1'] + cues + ['P2'])])
         return da.isel(outcomes=slice(1, len(outs) + 1), cues=slice(2, len(cues) + 2))
